@@ -16,12 +16,21 @@
     halts, the optimised code halts in the same state ([C02_optimize_cf_sound]; on [Sem.run]:
     [C02_optimize_cf_run]) -- provided the known-compare rule (remove_both) does not fire
     ([rb_free]): that rule is unsound as it stands, the removed compare also sets the carry
-    ([C02_cmp_rule_changes_c]).  What is NOT proved: calls, returns, stack operations, inline
-    assembly; the converse direction (the optimised code halts only if the original does). *)
+    ([C02_cmp_rule_changes_c]).
+
+    GLOBAL statement, for whole PROGRAMS with calls and returns (definitions in
+    Model/OptSimCall.v, proofs in Proofs/OptSimCallFacts.v): every function optimised; whenever
+    [Sem.run_function] of [main] halts on the original program it halts on the optimised one, in
+    an equal state ([C02_optimize_program_run]; on the program semantics [phalts]:
+    [C02_optimize_program_sound]); calls nest to any depth.  What is NOT proved: stack operations
+    (PHA/PLA/PHP/PLP), RTI, inline assembly; the known-compare rule ([rb_free]); the converse
+    direction (the optimised program halts only if the original does). *)
 From Coq Require Import String Ascii List Bool NArith ZArith.
 From CC Require Import Base.Str Asm.Lines M6502.Isa Asm.Operand M6502.Sem
      Model.Optimize Model.OptSem Model.OptSim Model.OptSimCF
+     Model.CheckBranches Model.OptSimCall
      Proofs.OptSemFacts Proofs.OptSimFacts Proofs.OptSimCFFacts.
+From CC Require Proofs.OptSimCallFacts.
 From CC Require Proofs.GenTemplatesFacts Proofs.GenLoopsFacts.
 Import ListNotations.
 
@@ -304,3 +313,47 @@ Theorem C02_duplicate_label_changes_x :
     halts sim_cfg c sim_state s' /\ halts sim_cfg (fst (optimize c)) sim_state s'' /\
     rX s' = 0%Z /\ rX s'' = 1%Z.
 Proof. exact duplicate_label_changes_x. Qed.
+
+(** * The global simulation theorem on whole programs, with calls and returns *)
+
+(** one body, the calls answered by any oracle that respects equality of states *)
+Theorem C02_optimize_call_equiv : forall Or cfg c,
+  OptSimCallFacts.oracle_ok Or -> ports cfg = [] -> cfc_ok cfg c = true -> NoDup (lbls c) -> rb_free c = true ->
+  cfc_equiv Or cfg c (fst (optimize c)).
+Proof. exact OptSimCallFacts.optimize_call_equiv. Qed.
+
+(** the program semantics [phalts] is [Sem.run_function] with its stack of frames *)
+Theorem C02_phalts_run_halts : forall cfg P main s s',
+  all_bodies (fun c => cfc_ok cfg c = true) P -> (exists sp, sprog_of P = Some sp) ->
+  phalts cfg P main s s' -> run_halts cfg P main s s'.
+Proof. exact OptSimCallFacts.phalts_run_halts. Qed.
+
+Theorem C02_run_halts_phalts : forall cfg P main s s',
+  all_bodies (fun c => cfc_ok cfg c = true) P ->
+  run_halts cfg P main s s' -> phalts cfg P main s s'.
+Proof. exact OptSimCallFacts.run_halts_phalts. Qed.
+
+(** every function optimised: the program halts in an equal state *)
+Theorem C02_optimize_program_sound : forall cfg P main s s',
+  ports cfg = [] -> bytes_ok s -> all_bodies (OptSimCallFacts.opt_ok cfg) P ->
+  phalts cfg P main s s' ->
+  exists s'', phalts cfg (opt_prog P) main s s'' /\ eq_state s'' s'.
+Proof. exact OptSimCallFacts.optimize_program_sound. Qed.
+
+Theorem C02_optimize_program_run : forall cfg P main s s',
+  ports cfg = [] -> bytes_ok s -> all_bodies (OptSimCallFacts.opt_ok cfg) P ->
+  run_halts cfg P main s s' ->
+  exists s'', run_halts cfg (opt_prog P) main s s'' /\ eq_state s'' s'.
+Proof. exact OptSimCallFacts.optimize_program_run. Qed.
+
+(** non-vacuity: three functions, calls nested two deep; the reload of X after the call stays,
+    the redundant load inside the callee goes; both programs executed by [Sem.run_function] *)
+Definition C02_call_prog_optimized := OptSimCallFacts.call_prog_optimized.
+Definition C02_call_prog_runs := OptSimCallFacts.call_prog_runs.
+
+Theorem C02_optimize_program_example :
+  ports sim_cfg = [] /\ bytes_ok sim_state /\ all_bodies (OptSimCallFacts.opt_ok sim_cfg) OptSimCallFacts.call_prog /\
+  exists s' s'', run_halts sim_cfg OptSimCallFacts.call_prog "main" sim_state s' /\
+                 run_halts sim_cfg (opt_prog OptSimCallFacts.call_prog) "main" sim_state s'' /\
+                 eq_state s'' s' /\ rX s' = 5%Z /\ mget (mem s') 128 = 10%Z.
+Proof. exact OptSimCallFacts.optimize_program_example. Qed.
